@@ -400,6 +400,11 @@ func binVal(op string, keepRight bool, x, y *big.Rat, f *flags) *big.Rat {
 		keep = y
 	}
 	c := x.Cmp(y)
+	if keepRight && c == 0 && op != "eq" {
+		// scalar on the left of an ordering comparison and a tie: evalBinary's swapped operator table (GTR→LTE, GTE→LSS,
+		// LSS→GTE, LTE→GTR) disagrees with the mirrored operator exactly here; such cases are regenerated, not judged
+		f.tie = true
+	}
 	var ok bool
 	switch op {
 	case "add":
